@@ -36,4 +36,6 @@ def run(col, configs, tier):
             guarded(col, X.rule_exponent_narrowing, facts, ("bellerophon",))      # Bellerophon serves decimal under compact
         guarded(col, X.rule_denormal_shift, facts, ("lemire",))
         guarded(col, X.rule_rte_window, facts)
+        guarded(col, X.rule_lemire_precision_and_window, facts)
+        guarded(col, X.rule_bellerophon_underflow_order, facts)
         guarded(col, X.rule_error_accounting, facts)
